@@ -28,8 +28,14 @@ func (*C02) Plan(tier string) orch.Plan {
 }
 
 type c02Gen struct {
-	r *scen.Rng
+	r     *scen.Rng
+	relog int // > 0: id of the logger that values logging from inside String() use; 0: no such values
+	nrl   int
 }
+
+// c02NestedLogger / c02NestedWriter: the logger and destination of records issued from inside a
+// value's String method (kept apart from every other logger's destinations)
+const c02NestedLogger, c02NestedWriter = 90, 90
 
 func (g *c02Gen) bytesStr() string { return string(g.raw()) }
 
@@ -51,6 +57,10 @@ func (g *c02Gen) raw() []byte {
 
 func (g *c02Gen) scalar() scen.Arg {
 	r := g.r
+	if g.relog > 0 && r.Chance(1, 40) {
+		g.nrl++
+		return scen.Arg{K: "relog", I: int64(g.relog), S: tok(50000 + g.nrl)}
+	}
 	switch r.Intn(34) {
 	case 0:
 		return scen.Arg{K: "nil"}
@@ -212,6 +222,18 @@ func (p *C02) Gen(seed uint64, i int, tier string) *scen.Scenario {
 		}
 	}
 	sc.World.Clock = scen.Clock{TickNs: 1, MinStep: 40, MaxStep: 4000}
+	if r.Chance(1, 3) {
+		// values that log from inside their String method (a record within a record): their own logger and destination
+		g.relog = c02NestedLogger
+		op := scen.Op{Op: "new_root", R: c02NestedLogger, Name: "nested", Named: true, Opts: []scen.Op{{Kind: "writer", W: c02NestedWriter, WK: "plain"}, {Kind: "errwriter", W: c02NestedWriter, WK: "plain"}, {Kind: "level", Lvl: model.Always}}}
+		switch r.Intn(3) {
+		case 0:
+			op.Opts = append(op.Opts, scen.Op{Kind: "json", B: []bool{true}})
+		case 1:
+			op.Opts = append(op.Opts, scen.Op{Kind: "color", B: []bool{false}})
+		}
+		sc.Setup = append(sc.Setup, op)
+	}
 	// 1-2 loggers (root, maybe a child), each with 1-3 destinations per class
 	nextW := 1
 	mk := func(id, parent int) {
@@ -406,8 +428,51 @@ func (p *C02) Gen(seed uint64, i int, tier string) *scen.Scenario {
 	return sc
 }
 
+// relogTokens: the tokens of all values in the scenario that log from inside their String method;
+// nil when one of them is malformed (no token, another logger than the dedicated one).
+func relogTokens(sc *scen.Scenario) map[string]bool {
+	toks := map[string]bool{}
+	bad := false
+	var walk func(as []scen.Arg)
+	walk = func(as []scen.Arg) {
+		for k := range as {
+			if as[k].K == "relog" {
+				if as[k].I != c02NestedLogger || !tokRe.MatchString(as[k].S) || len(as[k].S) < 8 {
+					bad = true
+				}
+				toks[as[k].S] = true
+			}
+			walk(as[k].Items)
+		}
+	}
+	var ops func(l []scen.Op)
+	ops = func(l []scen.Op) {
+		for i := range l {
+			walk(l[i].Args)
+			ops(l[i].Opts)
+			if l[i].Ctx != nil {
+				for _, cv := range l[i].Ctx.Vals {
+					walk([]scen.Arg{cv.V})
+				}
+			}
+		}
+	}
+	ops(sc.Setup)
+	ops(sc.Tail)
+	for _, t := range sc.Tasks {
+		ops(t.Ops)
+	}
+	if bad {
+		return nil
+	}
+	return toks
+}
+
 // WellFormed: the statement is about calls of non-terminating severity.
 func (p *C02) WellFormed(sc *scen.Scenario) bool {
+	if relogTokens(sc) == nil {
+		return false
+	}
 	ok := false
 	for _, f := range sc.World.Flags {
 		if f == "LnoInterrupt" {
@@ -461,6 +526,7 @@ func (p *C02) Check(sc *scen.Scenario, run *orch.Run, env *orch.Env) []orch.Viol
 	debug := false
 	var snap map[int]snapLogger
 	setupLen := len(sc.Setup)
+	nestedToks := relogTokens(sc) // values that log from inside String() may sit in call arguments or in logger attributes
 	checkCall := func(ph string, task, i int, op *scen.Op) {
 		o := ops[opKey(ph, task, i+1)]
 		if o == nil || o.Skipped {
@@ -509,6 +575,15 @@ func (p *C02) Check(sc *scen.Scenario, run *orch.Run, env *orch.Env) []orch.Viol
 		}
 		byW := map[int][]scen.Event{}
 		for _, w := range o.Writes {
+			if w.W == c02NestedWriter {
+				// a record issued from inside a value's String method during this call: one whole record of
+				// exactly that nested call (how often the value is formatted is not prescribed)
+				found := tokRe.FindAllString(string(w.P), -1)
+				if len(w.P) == 0 || w.P[len(w.P)-1] != '\n' || len(found) != 1 || !nestedToks[found[0]] {
+					add("C02.nested", "entry="+op.Entry, "%s(%q, %s): the record logged from inside a value's String method arrived as %.200q", op.Entry, op.Msg, argShape(op.Args, 0), w.P)
+				}
+				continue
+			}
 			byW[w.W] = append(byW[w.W], w)
 		}
 		want := reg.Admitted(ls.Level, op.Lvl, debug)
